@@ -5,6 +5,7 @@
 #include "nmtools/platform.hpp"
 #include "nmtools/utl/common.hpp"
 #include "nmtools/utl/array.hpp"
+#include "nmtools/verif.hpp"
 #include "nmtools/meta/bits/array/resize_bounded_size.hpp"
 
 // poor man's static_vector,
@@ -72,6 +73,7 @@ namespace nmtools::utl
         constexpr void resize(size_type new_size)
         {
             // TODO: assert/throw
+            NMTOOLS_VERIF_CAPACITY(11,new_size,Capacity);
             if (new_size <= Capacity) {
                 size_ = new_size;
             }
@@ -89,6 +91,7 @@ namespace nmtools::utl
 
         constexpr void push_back(const T& t)
         {
+            NMTOOLS_VERIF_CAPACITY(12,size_+1,Capacity);
             if (size_+1 > Capacity) {
                 return;
             }
@@ -110,6 +113,7 @@ namespace nmtools::utl
         constexpr reference at(index_type i)
         {
             // TODO: assert/throw
+            NMTOOLS_VERIF_BOUNDS(2,i,size_);
             return buffer[i];
         }
 
@@ -117,6 +121,7 @@ namespace nmtools::utl
         constexpr const_reference at(index_type i) const
         {
             // TODO: assert/throw
+            NMTOOLS_VERIF_BOUNDS(2,i,size_);
             return buffer[i];
         }
 
@@ -128,12 +133,14 @@ namespace nmtools::utl
         nmtools_index_attribute
         constexpr reference operator[](index_type i) noexcept
         {
+            NMTOOLS_VERIF_BOUNDS(2,i,size_);
             return buffer[i];
         }
 
         nmtools_index_attribute
         constexpr const_reference operator[](index_type i) const noexcept
         {
+            NMTOOLS_VERIF_BOUNDS(2,i,size_);
             return buffer[i];
         }
 
